@@ -586,6 +586,47 @@ func TestC02(t *testing.T) {
 	}
 	run.Exhaustive("256 first bytes x remaining length 0..64 in minimal and non-minimal 2-byte form x bodies {zeros, 0xFF, one short, one long}; 3/4/5/11-byte varints at boundary values")
 
+	// (a'') CONNECT variable header sweep: protocol name x level x connect flags,
+	// with a payload that is consistent with the flags
+	{
+		lp := func(x string) []byte { return append([]byte{byte(len(x) >> 8), byte(len(x))}, x...) }
+		names := []string{"", "M", "MQTT", "MQIsdp", "MQTT\x00", "mqtt", "MQTTT", "MQIsd", "\x00"}
+		connect := func(name string, level, flags byte) []byte {
+			body := append(lp(name), level, flags, 0, 10)
+			body = append(body, lp("c")...)
+			if flags&0x04 != 0 {
+				body = append(append(body, lp("w")...), lp("p")...)
+			}
+			if flags&0x80 != 0 {
+				body = append(body, lp("u")...)
+			}
+			if flags&0x40 != 0 {
+				body = append(body, lp("x")...)
+			}
+			return append([]byte{0x10, byte(len(body))}, body...)
+		}
+		idx := 0
+		for _, name := range names {
+			for level := 0; level < 256; level++ {
+				for _, flags := range []byte{0x02, 0x00, 0xC6} {
+					idx++
+					if idx%shards == shard {
+						try(connect(name, byte(level), flags), true, "connect-sweep")
+					}
+				}
+			}
+			for _, level := range []byte{0, 3, 4, 5} {
+				for flags := 0; flags < 256; flags++ {
+					idx++
+					if idx%shards == shard {
+						try(connect(name, level, byte(flags)), true, "connect-sweep")
+					}
+				}
+			}
+		}
+		run.Exhaustive("CONNECT with protocol name in {empty, M, MQTT, MQIsdp, MQTT+NUL, mqtt, MQTTT, MQIsd, NUL} x every protocol level 0..255 x flags {02, 00, C6} and x levels {0,3,4,5} x every connect-flags byte, payload consistent with the flags")
+	}
+
 	// (b) structured battery over generated valid packets
 	run.Rapid(t, "battery", ev.Pick(1500, 120000), func(rt *rapid.T) {
 		p := smallish(rt)
